@@ -295,6 +295,27 @@ func buildOperation(key string, r *expr.RouteExpr, bodies *EndpointBodies, rand 
 	var responses map[string]*ResponseRef
 	{
 		responses = make(map[string]*ResponseRef, len(e.Responses))
+		// Several responses (typically errors) may share a status code while
+		// the document holds one response per status code: describe each of
+		// them with its own body schema (bodies.ResponseBodies lists them in
+		// the same order) and merge the descriptions instead of keeping the
+		// first schema with the media type and headers of the last response.
+		seen := make(map[int]int)
+		bodiesFor := func(code int) map[int][]*openapi.Schema {
+			n := seen[code]
+			seen[code]++
+			if all := bodies.ResponseBodies[code]; n > 0 && n < len(all) {
+				return map[int][]*openapi.Schema{code: all[n:]}
+			}
+			return bodies.ResponseBodies
+		}
+		add := func(code int, resp *Response) {
+			key := strconv.Itoa(code)
+			if prev, ok := responses[key]; ok {
+				resp = mergeResponses(prev.Value, resp)
+			}
+			responses[key] = &ResponseRef{Value: resp}
+		}
 		for _, r := range e.Responses {
 			if e.MethodExpr.IsStreaming() {
 				// A streaming endpoint allows at most one successful response
@@ -308,14 +329,14 @@ func buildOperation(key string, r *expr.RouteExpr, bodies *EndpointBodies, rand 
 					bodies.ResponseBodies[r.StatusCode] = b
 				}
 			}
-			resp := responseFromExpr(r, bodies.ResponseBodies, rand)
-			responses[strconv.Itoa(r.StatusCode)] = &ResponseRef{Value: resp}
+			resp := responseFromExpr(r, bodiesFor(r.StatusCode), rand)
+			add(r.StatusCode, resp)
 		}
 		for _, er := range e.HTTPErrors {
 			if er.Description != "" && er.Response.Description == "" {
 				er.Response.Description = er.Description
 			}
-			resp := responseFromExpr(er.Response, bodies.ResponseBodies, rand)
+			resp := responseFromExpr(er.Response, bodiesFor(er.Response.StatusCode), rand)
 			desc := er.Name
 			if resp.Description != nil {
 				desc += ": " + *resp.Description
@@ -326,7 +347,7 @@ func buildOperation(key string, r *expr.RouteExpr, bodies *EndpointBodies, rand 
 					content.Example = nil
 				}
 			}
-			responses[strconv.Itoa(er.Response.StatusCode)] = &ResponseRef{Value: resp}
+			add(er.Response.StatusCode, resp)
 		}
 	}
 
@@ -365,6 +386,82 @@ func buildOperation(key string, r *expr.RouteExpr, bodies *EndpointBodies, rand 
 		ExternalDocs: openapi.DocsFromExpr(m.Docs, m.Meta),
 		Extensions:   openapi.ExtensionsFromExpr(m.Meta),
 	}
+}
+
+// mergeResponses returns the description of a status code shared by the two
+// given responses: both descriptions, the headers of both (required only if
+// required by both) and the media types of both. A media type that the two
+// responses describe with different schemas accepts any of them.
+func mergeResponses(a, b *Response) *Response {
+	res := &Response{
+		Description: a.Description,
+		Headers:     make(map[string]*HeaderRef),
+		Content:     make(map[string]*MediaType),
+		Links:       a.Links,
+		Extensions:  a.Extensions,
+	}
+	if a.Description != nil && b.Description != nil && *a.Description != *b.Description {
+		desc := *a.Description + "\n" + *b.Description
+		res.Description = &desc
+	}
+	optional := func(h *HeaderRef) *HeaderRef {
+		if h.Value == nil || !h.Value.Required {
+			return h
+		}
+		dup := *h.Value
+		dup.Required = false
+		return &HeaderRef{Ref: h.Ref, Value: &dup}
+	}
+	for n, h := range a.Headers {
+		if _, ok := b.Headers[n]; !ok {
+			h = optional(h)
+		}
+		res.Headers[n] = h
+	}
+	for n, h := range b.Headers {
+		if _, ok := a.Headers[n]; !ok {
+			res.Headers[n] = optional(h)
+		}
+	}
+	for ct, mt := range a.Content {
+		res.Content[ct] = mt
+	}
+	for ct, mt := range b.Content {
+		prev, ok := res.Content[ct]
+		if !ok {
+			res.Content[ct] = mt
+			continue
+		}
+		if prev.Schema == nil || mt.Schema == nil || prev.Schema == mt.Schema ||
+			(prev.Schema.Ref != "" && prev.Schema.Ref == mt.Schema.Ref) {
+			continue
+		}
+		var anyOf []*openapi.Schema
+		if prev.Schema.Type == "" && prev.Schema.Ref == "" && len(prev.Schema.AnyOf) > 0 {
+			anyOf = append(anyOf, prev.Schema.AnyOf...)
+		} else {
+			anyOf = append(anyOf, prev.Schema)
+		}
+		dup := *prev
+		dup.Schema = &openapi.Schema{AnyOf: append(anyOf, mt.Schema)}
+		dup.Example, dup.Examples = nil, nil
+		res.Content[ct] = &dup
+	}
+	if len(res.Headers) == 0 {
+		res.Headers = nil
+	}
+	if len(res.Content) == 0 {
+		res.Content = nil
+	}
+	for k, v := range b.Extensions {
+		if res.Extensions == nil {
+			res.Extensions = make(map[string]any)
+		}
+		if _, ok := res.Extensions[k]; !ok {
+			res.Extensions[k] = v
+		}
+	}
+	return res
 }
 
 // buildFileServerOperation builds the OpenAPI Operation object for the given file server.
